@@ -16,6 +16,7 @@ PARTIAL = [
     "object level (Props/C04.lean, insertKnot_preserves_surface / _volume, insert_call_sequence_preserves_surface / _volume): one insert_knot call with any subset of the directions of a surface or a volume, and any sequence of such calls, completes and preserves well-formedness, the domain and every evaluated point at every parameter of the domain - under the explicit hypothesis that every requested direction is admissible (DirReqOk: parameter in the half-open domain [U_p, U_n), the multiplicity s computed by find_multiplicity is a run ending at the span, r + s <= p; derivable from tolerance separation by insert_request_admissible); a direction rejected by the multiplicity check leaves the earlier directions applied and the points unchanged (insertKnot_partial_application_*). NOT covered by a theorem: a parameter outside the half-open domain of its direction (e.g. u = U_n), check=False with r + s > p, and curve objects at Shape level (curves are proved at helper level: insert_sequence_preserves - points unchanged on the closed domain AND the final state CurveWF with both domain ends unchanged; insert_net_length: r more points, each of the same dimension)",
     "rational objects: the theorems are about the homogeneous net (coordinatewise, weight coordinate included); the projection is C01/C09's",
     "list-of-rows branch of helpers.knot_insertion (volumes): MODELLED (knotInsertionRows, index form like the point branch; gather / scatter volRows / volUnrows / mapVolRows with the index expressions of operations.insert_knot; streams ins-rows / ins-vol-rows against the real helper called with rows and against operations.insert_knot) and PROVED equal to the per-iso-curve model (knotInsertionRows_isocurve: no hypothesis; knotInsertionRows_is_transposed_knotInsertion; mapVolRows_insert_eq_mapVol; insertKnotVolRows_is_insertKnotDir), so the volume theorems are about what the rows branch computes. Not covered: ragged rows (rows of different lengths) beyond the iso-curve statement; the tie between the in-place loops on rows (temp[i][idx][:] = ...) and the index form is the correspondence",
+    "guards stated as hypotheses (not used by the proofs, mirroring the code / driver): object-level insert_knot theorems (insertKnot_preserves_*, insertKnot_partial_application_*, insert_call_sequence_preserves_*) require params and num to have exactly one entry per parametric direction (the code raises otherwise; the model reads a missing entry as 'nothing requested'); knotInsertionRows_isocurve requires rectangular rows (ragged rows: IndexError in the code, [] padding in the model); insert_sequence_net_unique needs AllActive of the resulting knot vector (necessary)",
 ]
 
 
